@@ -2623,7 +2623,7 @@ func scanZeroCond(c *core.Ctx) []ob {
 				}
 				if (initial && len(rhs) == 0) || (!initial && onlyZero) {
 					key := fmt.Sprintf("ZEROCOND:%s#%s", fkey, v.Name())
-					out = append(out, withProps(violOb("ZEROCOND", key, c.Rel(id.Pos()), fmt.Sprintf("%s tests %s in the condition `%s`, but no assignment of %s reaches this point: it still holds its zero value, the condition is a constant and one arm is dead (the wrong variable is tested)", fkey, v.Name(), exprString(cond), v.Name())), bufProps(fkey)...))
+					out = append(out, withProps(violOb("ZEROCOND", key, c.Rel(id.Pos()), fmt.Sprintf("%s tests %s in the condition `%s`, but no assignment of %s reaches this point: it still holds its zero value, the condition is a constant and one arm is dead (the wrong variable is tested)", fkey, v.Name(), exprString(cond), v.Name())), propsForKey(fkey)...))
 				}
 				return true
 			})
@@ -2941,7 +2941,7 @@ func scanLoopShadow(c *core.Ctx) []ob {
 							// only when the outer variable is still used inside the inner loop's scope would be a proof of
 							// intent; the shadowing itself is the finding
 							key := fmt.Sprintf("LOOPSHADOW:%s#%s", fkey, id.Name)
-							out = append(out, withProps(violOb("LOOPSHADOW", key, c.Rel(id.Pos()), fmt.Sprintf("%s declares the loop variable %s inside a loop that already declares %s at %s: the inner body cannot refer to the outer counter, and an index written with both in mind uses the inner one twice", fkey, id.Name, id.Name, c.Rel(pos))), bufProps(fkey)...))
+							out = append(out, withProps(violOb("LOOPSHADOW", key, c.Rel(id.Pos()), fmt.Sprintf("%s declares the loop variable %s inside a loop that already declares %s at %s: the inner body cannot refer to the outer counter, and an index written with both in mind uses the inner one twice", fkey, id.Name, id.Name, c.Rel(pos))), propsForKey(fkey)...))
 						}
 						if _, ok := info.Defs[id]; ok {
 							inner[id.Name] = id.Pos()
@@ -3372,9 +3372,9 @@ func scanNormUse(c *core.Ctx) []ob {
 						return true
 					})
 					if bad == nil {
-						out = append(out, withProps(okOb("NORMUSE", key, c.Rel(as.Pos()), "the raw parameter is not mentioned after its normalised form is defined", true), bufProps(fkey)...))
+						out = append(out, withProps(okOb("NORMUSE", key, c.Rel(as.Pos()), "the raw parameter is not mentioned after its normalised form is defined", true), propsForKey(fkey)...))
 					} else {
-						out = append(out, withProps(violOb("NORMUSE", key, c.Rel(bad.Pos()), fmt.Sprintf("%s normalises the parameter %s into %s (%s) and then uses the raw %s again: decisions made on the raw value are only right while it is already in the canonical range", fkey, p.Name(), v.Name(), exprString(as.Rhs[i]), p.Name())), bufProps(fkey)...))
+						out = append(out, withProps(violOb("NORMUSE", key, c.Rel(bad.Pos()), fmt.Sprintf("%s normalises the parameter %s into %s (%s) and then uses the raw %s again: decisions made on the raw value are only right while it is already in the canonical range", fkey, p.Name(), v.Name(), exprString(as.Rhs[i]), p.Name())), propsForKey(fkey)...))
 					}
 				}
 			}
